@@ -36,4 +36,25 @@ fn main() {
     assert!(out.contains("loom::sync::atomic"), "the atomic import of atomic_bitmap.rs was not found");
     let path = std::path::Path::new(&std::env::var("OUT_DIR").unwrap()).join("atomic_bitmap_loom.rs");
     std::fs::write(path, out).unwrap();
+
+    // src/atomic_integer.rs with loom's atomic types: the AtomicInteger implementations are what
+    // every Bytes::store / Bytes::load ends in, including the ordering they hand on
+    let src = format!("{}/src/atomic_integer.rs", repo);
+    println!("cargo:rerun-if-changed={}", src);
+    let text = std::fs::read_to_string(&src).expect("read atomic_integer.rs");
+    let mut out = String::new();
+    for line in text.lines() {
+        let t = line.trim_start();
+        if t.starts_with("#[cfg(test)]") {
+            break;
+        }
+        if t.starts_with("//!") {
+            continue;
+        }
+        out.push_str(&line.replace("std::sync::atomic::", "loom::sync::atomic::"));
+        out.push('\n');
+    }
+    assert!(out.contains("loom::sync::atomic::AtomicU32"), "atomic_integer.rs does not look as expected");
+    let path = std::path::Path::new(&std::env::var("OUT_DIR").unwrap()).join("atomic_integer_loom.rs");
+    std::fs::write(path, out).unwrap();
 }
